@@ -285,6 +285,9 @@ package factory
 //   CreatedLen / CreatedAt: ghost trace of the names Refresh asked the factory to create, in order
 //@ ghost var CreatedLen int
 //@ ghost var CreatedAt map[int]string
+//   NamesSrc[k] / NamesPos[i]: ghost witnesses linking the collected names with the enumerated definitions
+//@ ghost var NamesSrc map[int]int
+//@ ghost var NamesPos map[int]int
 
 //@ func (*defaultFactory).Refresh$1
 //@ property C10
@@ -296,7 +299,7 @@ package factory
 //@ property C05 C10 C13 C09
 //@ requires [inv] FInv(f) && !Reg(f).HasHole
 //@ requires [nothing-in-creation] forall(n, string, !Reg(f).IC[n])
-//@ assigns RegFrame(Reg(f)), CreationFrame(), MetasPos, SortPerm, SortInv, CreatedLen, CreatedAt, Refreshed
+//@ assigns RegFrame(Reg(f)), CreationFrame(), MetasPos, SortPerm, SortInv, CreatedLen, CreatedAt, Refreshed, NamesSrc, NamesPos
 //@ let c0 = CreatedLen
 //@ ensures [inv-kept] FInv(f) && !Reg(f).HasHole
 //@ ensures [eager-all-created] implies(result == nil, forall(n, string, implies(f.definitionRegistry.DefDom[n] && !IsLazy(f.definitionRegistry.Def[n]), Reg(f).L1Dom[n]), f.definitionRegistry.DefDom[n]))
@@ -310,9 +313,11 @@ package factory
 //@ ghost after call Info: Refreshed = true
 //@ loop 1 invariant [collecting] 0 <= _done && (backing(names) == 0 || backing(names) > old(top()))
 //@ loop 1 invariant [names-are-non-lazy-definitions] forall(k, int, implies(0 <= k && k < len(names), f.definitionRegistry.DefDom[names[k]] && !IsLazy(f.definitionRegistry.Def[names[k]])), names[k])
-//@ loop 1 invariant [names-from-seen] forall(k, int, implies(0 <= k && k < len(names), exists(i, int, 0 <= i && i < _done && names[k] == _range[i].Name())), names[k])
+//@ loop 1 invariant [names-from-seen] forall(k, int, implies(0 <= k && k < len(names), 0 <= NamesSrc[k] && NamesSrc[k] < _done && names[k] == _range[NamesSrc[k]].Name()), names[k], NamesSrc[k])
 //@ loop 1 invariant [names-distinct] forall(a, int, forall(b, int, implies(0 <= a && a < b && b < len(names), names[a] != names[b])))
-//@ loop 1 invariant [seen-non-lazy-collected] forall(i, int, implies(0 <= i && i < _done && !IsLazy(_range[i]), exists(k, int, 0 <= k && k < len(names) && names[k] == _range[i].Name())))
+//@ loop 1 invariant [seen-non-lazy-collected] forall(i, int, implies(0 <= i && i < _done && !IsLazy(_range[i]), 0 <= NamesPos[i] && NamesPos[i] < len(names) && names[NamesPos[i]] == _range[i].Name()), _range[i], NamesPos[i])
+//@ ghost after call append #1: NamesSrc = store(NamesSrc, len(names) - 1, _idx)
+//@ ghost after call append #1: NamesPos = store(NamesPos, _idx, len(names) - 1)
 //@ loop 2 invariant [state] FInv(f) && !Reg(f).HasHole && forall(n, string, !Reg(f).IC[n]) && Failed == old(Failed) && Refreshed == old(Refreshed) && RanLen == old(RanLen) && CreatedLen == c0 + _done
 //@ loop 2 invariant [created-so-far] forall(k, int, implies(0 <= k && k < _done, Reg(f).L1Dom[names[k]]), names[k])
 //@ loop 2 invariant [trace] forall(a, int, implies(c0 <= a && a < c0 + _done, CreatedAt[a] == names[a - c0]), CreatedAt[a])
